@@ -194,10 +194,12 @@ def make_run(mode, shapes_):
 
 
 def contracts(tier):
-    from . import writers
+    from . import writers, c08
     maxn = 4 if tier == 'thorough' else 3
     shapes_ = forest_shapes(maxn)
-    cs = list(writers.contracts(tier))
+    # the scanner's step contract carries C07's precondition on what the
+    # renderers are given: a comment leaf ends with a line break
+    cs = list(writers.contracts(tier)) + list(c08.scanner_contracts(tier))
     cs.append(Contract(
         'C07/lemma/reread', [], run_reread_lemmas,
         assumptions=['lemmas over the specification of the reader step '
